@@ -406,6 +406,12 @@ def run_hyp(ctx, fedjax, jax, jnp, cfg, h, cache):
   K = h['K']
   drng, raw = make_world(h, spread=1.5)
   inits = [toy.make_params(drng, DIM, kind, scale=1.2) for _ in range(K)]
+  if offset and K >= 2 and h['data_seed'] % 3:
+    # near-ties: clusters that start a few 1e-3 apart, so that a client's average losses (1000.x) differ by 1e-3 .. 1e-2 --
+    # dozens of float32 ulps, yet a tiny RELATIVE difference
+    inits = [toy.tmap(lambda a, k=k: (np.asarray(a) + np.float32(k * (2e-3 + 4e-3 * drng.rand()))).astype(np.float32), inits[0])
+             for k in range(K)]
+    ctx.count('hyp:offset-loss-near-ties')
   algo, hp_train, hp_eval = cache.get(cfg)
   wit = dict(copt=cspec, sopt=sspec, kind=kind, num_clusters=K, sizes=h['sizes'], cohorts=h['cohorts'],
              data_seed=h['data_seed'], groups=h['groups'])
@@ -459,7 +465,7 @@ def run_hyp(ctx, fedjax, jax, jnp, cfg, h, cache):
           return ctx.case_done(None, sample=wit, klass='hyp:raised')
         lev.append(float(np.asarray(rr.value)))
       # the float32 average losses the algorithm itself computes: "minimal" up to a few units in the last place of these values
-      tol_ulp = 64 * 2.0**-23 * max(1.0, max(abs(v) for v in lev))
+      tol_ulp = 16 * 2.0**-23 * max(1.0, max(abs(v) for v in lev))
       mon(ctx, 'hyp-argmin-eval', in_range and lev[a] <= min(lev) + tol_ulp, 'hyp/assigned-cluster-not-min-loss',
           f'round {rnd}: client {cid!r} assigned to cluster {a} with evaluate_average_loss {lev[a] if in_range else None}'
           f' > minimum {min(lev)}', {**rw, 'client': cid, 'losses': lev, 'assigned': a})
